@@ -16,8 +16,7 @@ import (
 func VH_C06_protocol() {
 	op := sdb.VerifShard(7)
 	// column a aliases the rowid here, so that PKSelect reaches its callback
-	vhTableSQL = "CREATE TABLE t (a INTEGER PRIMARY KEY, b)"
-	d, db := vhSetup()
+	d, db := vhSetupWith(false, "CREATE TABLE t (a INTEGER PRIMARY KEY, b)")
 	p := d.f.Pager
 	bad0 := p.BadRead // the header probe at open happens before any lock exists
 	mode := sdb.VerifChoice(4) // 0 normal, 1 fault at k-th read, 2 lock fails, 3 callback panics
